@@ -201,6 +201,8 @@ private:
     //! Computing Sample Variances"
     double combine_variance(const Aggregate& other) const noexcept
     {
+        if (count_ + other.count_ == 0)
+            return 0.0;
         double delta = mean_ - other.mean_;
         return nvar_ + other.nvar_ +
                (delta * delta) * (count_ * other.count_) /
